@@ -121,7 +121,8 @@ class _Worker:
             keys = [l for l in txt.splitlines()
                     if "runtime error:" in l or "ERROR: AddressSanitizer" in l or l.startswith("SUMMARY:")
                     or "Fatal Python error" in l]
-            return "\n".join(keys[-6:]) + "\n----\n" + txt[-n:]
+            marks = [l for l in txt.splitlines() if l.startswith("MARK ")]
+            return "\n".join(marks[-1:] + keys[-6:]) + "\n----\n" + txt[-n:]
         except Exception:
             return ""
 
